@@ -789,6 +789,75 @@ Proof.
   rewrite E, Hs. specialize (IH s1). rewrite Hr in IH. simpl in IH. rewrite (IH H2). reflexivity.
 Qed.
 
+(* ------------------------------------------------------------ export and forward items *)
+
+Definition is_local_decl (k : ikind) : bool := ikind_eqb k KExport || ikind_eqb k KForward.
+
+Definition local_bindings (bs : list binding) : list binding :=
+  filter (fun b => is_local_decl (fst (fst b))) bs.
+
+(* what a link stores in the export/forward items of module m: the module's own table entry *)
+Definition local_spec (id : nat) (m : modl) : list binding :=
+  map (fun it => (ik it, iname it, local_ref id m (iname it)))
+      (filter (fun it => is_local_decl (ik it)) (mitems m)).
+
+Lemma link_items_local r id m items : forall e res e' res' bs,
+  link_items r id m items e res = inl (e', res', bs) ->
+  local_bindings bs
+  = map (fun it => (ik it, iname it, local_ref id m (iname it)))
+        (filter (fun it => is_local_decl (ik it)) items).
+Proof.
+  induction items as [|it rest IH]; intros e res e' res' bs H; simpl in H.
+  - inversion H; subst. reflexivity.
+  - simpl. destruct (ik it) eqn:Hk; simpl.
+    + destruct (assoc e (iname it)) as [d|].
+      * destruct (link_items r id m rest e res) as [[[e1 res1] bs1]|] eqn:Hl; [|discriminate].
+        inversion H; subst. unfold local_bindings. simpl. apply (IH _ _ _ _ _ Hl).
+      * destruct (r (iname it)) as [a|]; [|discriminate].
+        destruct (link_items r id m rest (fst (setup_global e (iname it) (DExt a))) (res ++ [(iname it, a)]))
+          as [[[e1 res1] bs1]|] eqn:Hl; [|discriminate].
+        inversion H; subst. unfold local_bindings. simpl. apply (IH _ _ _ _ _ Hl).
+    + destruct (link_items r id m rest e res) as [[[e1 res1] bs1]|] eqn:Hl; [|discriminate].
+      inversion H; subst. unfold local_bindings. simpl. rewrite Hk. f_equal. apply (IH _ _ _ _ _ Hl).
+    + destruct (link_items r id m rest e res) as [[[e1 res1] bs1]|] eqn:Hl; [|discriminate].
+      inversion H; subst. unfold local_bindings. simpl. rewrite Hk. f_equal. apply (IH _ _ _ _ _ Hl).
+    + apply (IH _ _ _ _ _ H).
+    + apply (IH _ _ _ _ _ H).
+    + apply (IH _ _ _ _ _ H).
+Qed.
+
+Lemma link_mods_local r ms : forall e res e' res' all,
+  link_mods r ms e res = inl (e', res', all) ->
+  Forall2 (fun m ib => fst ib = lid m /\ local_bindings (snd ib) = local_spec (lid m) (lmd m)) ms all.
+Proof.
+  induction ms as [|m rest IH]; intros e res e' res' all H; simpl in H.
+  - inversion H; subst. constructor.
+  - destruct (link_items r (lid m) (lmd m) (mitems (lmd m)) e res) as [[[e1 res1] bs]|] eqn:Hi; [|discriminate].
+    destruct (link_mods r rest e1 res1) as [[[e2 res2] all2]|] eqn:Hm; [|discriminate].
+    inversion H; subst. constructor.
+    + simpl. split; [reflexivity|]. apply (link_items_local _ _ _ _ _ _ _ _ _ Hi).
+    + apply (IH _ _ _ _ _ Hm).
+Qed.
+
+(* every completed link (with or without interface) of every history stores in every export and
+   forward item of every module it binds the module's own entry for that name *)
+Lemma export_forward_local_proof : forall (p : list op) (r : resolver) (o : op),
+  o = Link r \/ o = LinkNoIface r ->
+  forall bs res, snd (step true (fst (run p)) o) = OLinked bs res
+                 \/ snd (step true (fst (run p)) o) = OBound bs res ->
+  dead (fst (run p)) = false ->
+  Forall2 (fun m ib => fst ib = lid m /\ local_bindings (snd ib) = local_spec (lid m) (lmd m))
+          (pending (snd (run p))) bs.
+Proof.
+  intros p r o Ho bs res Hout Hd.
+  destruct (run_inv p Hd) as (_ & _ & Hq & _). rewrite <- Hq.
+  unfold step in Hout. rewrite Hd in Hout.
+  destruct Ho as [Ho|Ho]; subst o;
+    destruct (link_mods r (to_link (fst (run p))) (env (fst (run p))) []) as [[[e' res'] bs']|[e1 res1]] eqn:Hl;
+    simpl in Hout; destruct Hout as [Hout|Hout]; try discriminate;
+    inversion Hout; subst; apply (link_mods_local _ _ _ _ _ _ _ Hl).
+Qed.
+
 (* ------------------------------------------------------------ stability of earlier bindings *)
 
 Lemma step_linked_prefix am s o : exists ext, linked (fst (step am s o)) = linked s ++ ext.
